@@ -227,7 +227,8 @@ Theorem C19_from_dataframe_errors (c : mclass) (t : table) (e : exn) :
 Proof. exact (from_table_errors c t e). Qed.
 Print Assumptions C19_from_dataframe_errors.
 
-(* what the guards exclude really fails: a variable added at run time (not in NAMES) is exported and silently dropped *)
+(* the guards are necessary (documented behaviour of from_dataframe, not defects: names and dtype come from the class and the
+   call).  `cnames c = fnames m` is necessary: a variable added at run time (not in NAMES) is exported and not rebuilt *)
 Theorem C19_from_to_extra_variable_refuted :
   exists m c t m', (forall k, In k (cnames c) -> In k (fnames m)) /\ cstrict c = false /\
     model_to_table false false false m = TOk t /\ find_col "I" (tcols t) <> None /\
@@ -235,7 +236,8 @@ Theorem C19_from_to_extra_variable_refuted :
 Proof. exact from_to_extra_variable_refuted. Qed.
 Print Assumptions C19_from_to_extra_variable_refuted.
 
-(* an integer model rebuilt with the class default dtype (float): 2^53 + 1 comes back as 2^53 *)
+(* the dtype guard is necessary: an integer model rebuilt with the class default dtype (float) instead of dtype=int —
+   2^53 + 1 comes back as 2^53 (C19_from_to_default_float covers |k| <= 2^53) *)
 Theorem C19_from_to_int_as_float_refuted :
   exists m c t m', cnames c = fnames m /\ model_to_table false false false m = TOk t /\ from_table c t = TOk m' /\
     assoc_s "I" (fvars m) = Some (mkSeries NInt [CInt 1; CInt (-2); CInt 9007199254740993]) /\
@@ -243,7 +245,7 @@ Theorem C19_from_to_int_as_float_refuted :
 Proof. exact from_to_int_as_float_refuted. Qed.
 Print Assumptions C19_from_to_int_as_float_refuted.
 
-(* a text model rebuilt with the class default dtype (float): ValueError *)
+(* the dtype guard is necessary: a text model rebuilt with the class default dtype (float) instead of dtype=str — ValueError *)
 Theorem C19_from_to_str_as_float_refuted :
   exists m c t, cnames c = fnames m /\ model_to_table false false false m = TOk t /\ from_table c t = TErr ValueError.
 Proof. exact from_to_str_as_float_refuted. Qed.
